@@ -1,18 +1,15 @@
 #!/bin/bash
-# run_seeded.sh [ids...] : apply every kept seeded change to /repo in turn, run the quick check of its property, undo it.
-# Prints DETECTED / MISSED per change.  Evidence of these runs goes to a scratch directory.
+# run_seeded.sh [ids...] : apply every kept seeded change to a PRIVATE scratch worktree of /repo in turn, run the quick
+# check of its property against it (SPIL_REPO), remove the worktree.  Prints DETECTED / MISSED per change.
 cd /verif
 ids=${@:-$(ls seeded)}
 for m in $ids; do
   d=/verif/seeded/$m
   p=$(python3 -c "import json;print(json.load(open('$d/meta.json'))['property'])")
-  chk=$p
-  cd /repo
-  if [ -n "$(git status --porcelain)" ]; then echo "/repo is not clean"; exit 2; fi
-  if ! git apply --check "$d/patch.diff" 2>/dev/null; then echo "$m: patch does not apply any more"; continue; fi
-  git apply "$d/patch.diff"
-  cd /verif
-  out=$(VERIF_EVIDENCE_DIR=/tmp/mut/ev ./check $chk --tier quick 2>&1 | grep -c '^VIOLATION')
-  git -C /repo checkout -- . ; git -C /repo clean -fdq spil spil_hamlet_conf 2>/dev/null
-  if [ "$out" -ge 1 ]; then echo "$m: DETECTED by $chk"; else echo "$m: MISSED by $chk"; fi
+  wt=$(mktemp -d /tmp/mutrepo-XXXXXX); rmdir $wt
+  git -C /repo worktree add -q --detach $wt HEAD || { echo "$m: cannot create worktree"; continue; }
+  if ! git -C $wt apply "$d/patch.diff" 2>/dev/null; then echo "$m: patch does not apply any more"; git -C /repo worktree remove --force $wt; continue; fi
+  out=$(SPIL_REPO=$wt VERIF_EVIDENCE_DIR=/tmp/mut/ev ./check $p --tier quick 2>&1 | grep -c '^VIOLATION')
+  git -C /repo worktree remove --force $wt; git -C /repo worktree prune
+  if [ "$out" -ge 1 ]; then echo "$m: DETECTED by $p"; else echo "$m: MISSED by $p"; fi
 done
